@@ -31,6 +31,9 @@ K_MEMCPY = ["Memcpy HtoD (Pageable -> Device)", "Memcpy DtoH (Device -> Pageable
 K_MEMSET = ["Memset (Device)"]
 KERNEL_LAUNCHES = ["cudaLaunchKernel", "cudaLaunchKernelExC", "cuLaunchKernel"]
 OTHER_RUNTIME = ["cudaMalloc", "cudaStreamIsCapturing", "cudaGetLastError"]
+# launch-capable runtime calls that are NOT in HTA's list of launch names (the pairing is by correlation id, whatever the name)
+UNLISTED_KERNEL_LAUNCH = "cudaLaunchCooperativeKernel"
+UNLISTED_MEM_LAUNCH = "cudaMemcpy2DAsync"
 
 KCLASS = {}
 for _n in K_COMP:
@@ -83,7 +86,9 @@ class GenCfg:
     zero_len_same_start_ok: bool = True
     unlinked_head: int = 0           # device activities before everything whose launch is outside the trace
     gpu_annotations: bool = False
-    corr_base: int = 100             # first correlation id of rank 0 (ranks are 100 apart)
+    corr_base: int = 100             # first correlation id of rank 0
+    corr_stride: int = 100           # distance between the id ranges of consecutive ranks (0: every rank uses the same ids)
+    p_unlisted_launch: float = 0.0   # a launch goes through a runtime call that is not in HTA's launch-name list
 
 
 @dataclass
@@ -106,7 +111,7 @@ class _Sim:
         self.rng, self.cfg, self.rank = rng, cfg, rank
         self.pid = 4000 + rank
         self.ev: List[Dict[str, Any]] = []
-        self.corr = cfg.corr_base + 100 * rank
+        self.corr = cfg.corr_base + cfg.corr_stride * rank
         self.last_end: Dict[int, int] = {}      # per stream: end of last placed activity
         self.last_start: Dict[int, int] = {}
         self.launched: Dict[int, List[int]] = {}  # per stream: ends of activities launched so far
@@ -159,10 +164,14 @@ class _Sim:
                 call, cat, kname = "cudaMemsetAsync", "gpu_memset", "Memset (Device)"
             else:
                 call, cat, kname = "cudaMemcpyAsync", "gpu_memcpy", rng.choice(K_MEMCPY)
+                if rng.random() < cfg.p_unlisted_launch:
+                    call = UNLISTED_MEM_LAUNCH
             bw = rng.choice([1, 2, 3, 4, 6, 8, 12, 16]) / 4.0   # dyadic
             kargs = {"bytes": 512 * rng.randint(1, 8), "memory bandwidth (GB/s)": bw}
         else:
             call, cat = rng.choice(KERNEL_LAUNCHES), "kernel"
+            if rng.random() < cfg.p_unlisted_launch:
+                call = UNLISTED_KERNEL_LAUNCH
             kname = rng.choice(K_COMM) if rng.random() < cfg.p_comm else rng.choice(K_COMP)
             kargs = {"queued": 0}
         rt_cat = "cuda_driver" if call == "cuLaunchKernel" else "cuda_runtime"
